@@ -202,6 +202,23 @@ def run_case(es, rec):
             rec.count("params_rejected")
         finally:
             setattr(first, attr, keep)
+    from shangrla.core.Audit import Contest as _C
+    for con in sim.contests.values():
+        if con.choice_function == _C.SOCIAL_CHOICE_FUNCTION.IRV:
+            for attr, badval in (("assertion_file", None), ("n_winners", 2)):
+                keep, keepw = getattr(con, attr), con.winner
+                setattr(con, attr, badval)
+                if attr == "n_winners":
+                    con.winner = list(con.candidates[:2])
+                try:
+                    audit.check_audit_parameters(sim.contests)
+                    rec.violation("c09.params", f"accepts_invalid_irv_{attr}", {"value": badval})
+                except AssertionError:
+                    rec.count("params_rejected")
+                finally:
+                    setattr(con, attr, keep)
+                    con.winner = keepw
+            break
     sim.assign_sample_nums()
     lims = set(c["risk_limit"] for c in es["contests"].values())
     seen = set()
